@@ -276,6 +276,10 @@ def suite_C08():
     vals = []
     for n in [0, 1, -1, 2, -2, 3, 2**53, 2**53 + 1, -2**53 - 1, 2**63 - 1, 2**63, 2**64 + 1]:
         vals.append((Fraction(n), lit(n)))
+    vals.append((Fraction(-2**63), '((0-9223372036854775807) - 1)'))
+    vals.append((Fraction(-2**63), '(0-2^63)'))
+    vals.append((Fraction(-2**63), '(0-9223372036854775808.0)'))
+    vals.append((Fraction(2**63 - 1), big_repr(2**63 - 1)))
     for q in [Fraction(1, 2), Fraction(-5, 2), Fraction(2**53 * 2 + 1, 2), Fraction(1, 3), Fraction(6, 3)]:
         vals.append((q, frac_lit(q)))
     for f, e in [(0.5, '0.5'), (-2.5, '(0-2.5)'), (2.0, '2.0'), (9007199254740992.0, '9007199254740992.0'), (9223372036854775808.0, '9223372036854775808.0'),
@@ -336,12 +340,21 @@ def suite_C09():
         k += 1
         cases.append(('u%d' % k, 'len(set([%s, %s]))' % (a, b), '1', dict(a=a, b=b, what='set')))
         k += 1
+    dsetup = 'vda := {1: "one", 2: "two", 3: "three"}; vdb := {1: "ONE", 4: "FOUR"};\n'
+    for expr, exp in [('(vda && vdb)[1]', 'one'), ('len(vda && vdb)', '1'), ('(vda && {1.0: 0})[1]', 'one'), ('len(vda || vdb)', '4'), ('len(vda -- vdb)', '2'),
+                      ('2 in (vda -- vdb)', '1'), ('1 in (vda -- vdb)', '0'), ('len(vda -. 1)', '2'), ('len(vda -. 1.0)', '2'), ('len(vda -. (2/2))', '2'),
+                      ('1 in (vda -. (1+0i))', '0'), ('len(vda |. 5)', '4'), ('len(vda |. 1.0)', '3'), ('vda[2/1]', 'two'), ('3.0 in vda', '1'),
+                      ('(vda !? 7)', 'null'), ('(vda !? 2.0)', 'two'), ('len(keys(vda))', '3'), ('sort(keys(vda))', '[1, 2, 3]'), ('sort(values(vdb))', '["FOUR", "ONE"]'),
+                      ('vda == {3: "three", 2.0: "two", (1/1): "one"}', '1'), ('frequencies([1, 1.0, 2/2, 2])[1]', '3'), ('len(unique([1, 1.0, 2/2, 2]))', '2'),
+                      ('count_distinct([1, 1.0, 0.5, 1/2])', '2')]:
+        cases.append(('do%d' % k, expr, exp, dict(expr=expr, what='dictionary operation')))
+        k += 1
     for ga, gb in itertools.combinations(groups, 2):
         if ga[0] == '(0.0/0.0)' or gb[0] == '(0.0/0.0)':
             continue
         cases.append(('d%d' % k, 'len({%s: 1, %s: 2})' % (ga[0], gb[-1]), '2', dict(a=ga[0], b=gb[-1], what='distinct')))
         k += 1
-    return '', cases
+    return dsetup, cases
 
 
 def suite_C10():
@@ -498,6 +511,13 @@ def suite_C12():
         var = decl.split(':')[0]
         cases.append(('k%d' % k, '(\\ -> (%s; %s; %s))()' % (decl, stmt, var), exp, dict(declaration=decl, statement=stmt, what='type-preserving assignment is accepted')))
         k += 1
+    for val, pat, exp in [('[1, [2, 3]]', 'literally [1, [2, 3]]', 'hit'), ('{1: 2}', 'literally {1: 2}', 'hit'), ('[1, 2]', 'literally [1, 3]', 'other'),
+                          ('2.0', '2', 'hit'), ('"ab"', '"ab"', 'hit'), ('[1, 2, 3]', 'a, ...b', 'hit'), ('[1, 2]', 'a, b, c', 'other'), ('5', 'x: str', 'other')]:
+        cases.append(('p%d' % k, 'switch (%s) case %s -> "hit" case _ -> "other"' % (val, pat), exp, dict(value=val, pattern=pat, what='switch runs the first matching arm')))
+        k += 1
+    for decl, stmt in [('x: stream = 1 til 4', 'x[0] = 7'), ('x: stream = 1 til 4', 'x[1] += 5')]:
+        cases.append(('g%d' % k, '(\\ -> (%s; %s; "completed"))()' % (decl, stmt), 'ERR', dict(declaration=decl, statement=stmt, what='annotation must be enforced')))
+        k += 1
     return setup, cases
 
 
@@ -546,6 +566,15 @@ def suite_C16():
         k += 1
     for cp in [65, 97, 233, 0x4e16, 0x1f600]:
         cases.append(('o%d' % k, 'ord(chr(%d))' % cp, str(cp), dict(code_point=cp, what='chr/ord')))
+        k += 1
+    for (a, ea, ra) in int_exprs([0, 1, -1, 1024, 3**39, -3**39, 2**63 - 1, -2**63, 2**53 + 1]):
+        cases.append(('jn%d' % k, 'json_encode(%s)' % ea, str(a), dict(n=a, repr=ra, what='json_encode of an integer')))
+        k += 1
+        cases.append(('jr%d' % k, 'json_decode(json_encode([%s, "k"]))[0] == %s' % (ea, ea), '1', dict(n=a, repr=ra, what='json round trip')))
+        k += 1
+    for txt, q in [('3.05', Fraction(61, 20)), ('0.075', Fraction(3, 40)), ('1.0625e2', Fraction(425, 4)), ('10.01', Fraction(1001, 100)), ('0.5', Fraction(1, 2)),
+                   ('100', Fraction(100)), ('1.50', Fraction(3, 2)), ('0.001e3', Fraction(1)), ('7/4', Fraction(7, 4))]:
+        cases.append(('dq%d' % k, 'rational("%s")' % txt, show_frac(q), dict(text=txt, what='rational(s)')))
         k += 1
     for txt, q in [('1.5', Fraction(3, 2)), ('3/4', Fraction(3, 4)), ('2e3', Fraction(2000)), ('0.125', Fraction(1, 8)), ('10', Fraction(10)), ('1.5e-2', Fraction(3, 200))]:
         cases.append(('q%d' % k, 'rational("%s")' % txt, show_frac(q), dict(text=txt, what='rational(s)')))
@@ -642,6 +671,13 @@ def suite_C03():
         expr = '(\\ -> (%s::precedence = %d; %s::precedence = %d; %s %s %s %s %s))()' % (cnames[o1], p1, cnames[o2], p2, lit(a), cnames[o1], lit(b), cnames[o2], lit(c))
         cases.append(('q%d' % k, expr, str(exp), dict(chain='%d %s %d %s %d' % (a, o1, b, o2, c), precedences={o1: p1, o2: p2}, what='chainable comparisons')))
         k += 1
+    # every operand is evaluated exactly once, left to right (direct chain; section: at creation, the slot at application)
+    tr = '(\\ -> (tr := ""; t := \\x -> (tr = tr $ str(x); x); %s; tr $ "=" $ str(v)))()'
+    for body, exp in [('v := t(1) + t(2) * t(3) - t(4)', '1234=3'), ('sec := t(1) + t(2) * _ - t(4); v := sec(t(3))', '1243=3'),
+                      ('sec := _ + t(2) * t(3); v := sec(t(1))', '231=7'), ('v := t(5) - t(1) - t(1) ^ t(2) ^ t(0)', '51120=3'),
+                      ('sec := t(9) // t(2) %% _; v := sec(t(3))', '923=1')]:
+        cases.append(('o%d' % k, tr % body, exp, dict(program=body, what='operands evaluated once, left to right')))
+        k += 1
     # chained comparisons merge exactly when the left one is tighter than (or ties left-assoc with) the next
     for a, b, c in itertools.product([1, 2, 3], repeat=3):
         cases.append(('m%d' % k, '%d < %d <= %d' % (a, b, c), str(int(a < b <= c)), dict(chain='%d < %d <= %d' % (a, b, c), what='comparison chain')))
@@ -667,6 +703,17 @@ def suite_C14():
         k += 1
     ext = ['(0-9223372036854775808)', '9223372036854775807', '(0-9223372036854775807)', '9223372036854775808', '(0-9223372036854775809)', '2^64', '(0-2^64)', '(1/2)', '1.5', 'null', '"x"']
     seqs = ['[]', '[1, 2, 3]', '""', '"abc"', 'vector([1, 2])', 'bytes([1, 2])', 'stream([1, 2, 3])', '(1 til 4)', '(1 til 4)[1:]']
+    for lo, hi in itertools.product(range(0, 13), repeat=2):
+        cases.append(('ux%d' % k, '"na\u00efve caf\u00e9"[%d:%d]' % (lo, hi), None, dict(what='string slice at arbitrary byte offsets', lo=lo, hi=hi)))
+        k += 1
+    for i in range(-13, 13):
+        cases.append(('uy%d' % k, '"na\u00efve caf\u00e9"[%s]' % lit(i), None, dict(what='string index at arbitrary byte offsets', index=i)))
+        k += 1
+    smin = '((0-9223372036854775807) - 1)'
+    for x in ['%s // (0-1)', '%s %%%% (0-1)', '%s /! (0-1)', '%s %% (0-1)', 'abs(%s)', '0 - %s', '%s * (0-1)', '%s - 1', '%s gcd 0', '%s lcm 3', '%s >> 1', '%s << 1', '~%s',
+              'signum(%s)', '%s ^ 2', '%s // 1', '[1, 2, 3][%s]', '[1, 2, 3][%s:]', '%s til 0 by %s']:
+        cases.append(('sm%d' % k, x.replace('%s', smin), None, dict(expr=x, what='i64::MIN held as a machine word')))
+        k += 1
     # infinite streams with O(1) indexing: every extreme index must give a value or a catchable error
     for sq, i in itertools.product(['repeat(1)', 'cycle([1, 2, 3])', '(cycle([1, 2, 3])[1:])'], ext):
         cases.append(('ni%d' % k, '(%s)[%s]' % (sq, i), None, dict(seq=sq, index=i)))
@@ -710,10 +757,44 @@ def suite_C14():
     return '', cases
 
 
+def suite_C14X():
+    """bound: ~100 pure builtins applied to every 1- and 2-tuple from a pool of 30 boundary values of every kind (thorough tier)"""
+    pool = ['null', '0', '1', '(0-1)', '2', '3', '2^62', '2^63', '(0-2^63)', '2^64', '((0-9223372036854775807) - 1)', '(1/2)', '((0-7)/2)', '0.5', '(0-0.0)',
+            '(1.0/0.0)', '(0.0/0.0)', '(1+2i)', '""', '"ab"', '"\u00e9x"', '[]', '[1, 2, 3]', '[[1], [2, 3]]', '{}', '{1: 2}', 'V(1, 2)', 'bytes([1, 2])', '(1 til 4)',
+            'stream([1, 2])', '[0.5, "a", null]']
+    one = ['abs', 'floor', 'ceil', 'round', 'signum', 'even', 'odd', 'numerator', 'denominator', 'real_part', 'imag_part', 'complex_parts', 'len', 'first', 'second',
+           'third', 'last', 'only', 'tail', 'butlast', 'reverse', 'sort', 'unique', 'flatten', 'transpose', 'enumerate', 'pairwise', 'prefixes', 'suffixes', 'keys',
+           'values', 'items', 'sum', 'product', 'max', 'min', 'any', 'all', 'frequencies', 'lines', 'words', 'unwords', 'unlines', 'upper', 'lower', 'strip', 'trim',
+           'chr', 'ord', 'utf8_encode', 'utf8_decode', 'hex_encode', 'hex_decode', 'base64_encode', 'base64_decode', 'json_encode', 'json_decode', 'str', 'repr', 'int',
+           'float', 'rational', 'complex', 'list', 'set', 'dict', 'vector', 'bytes', 'stream', 'cycle', 'repeat', 'iota', 'not', 'id', 'uncons', 'unsnoc', 'float_to_bits',
+           'bits_to_float', 'is_big', 'type', 'group_all', 'count_distinct', 'mean', 'is_prime', 'factorize', 'permutations', 'subsequences', 'compress', 'decompress']
+    two = ['+', '-', '*', '/', '%', '//', '%%', '/!', '&', '|', '<=>', '==', '!=', '<', '>=', 'min', 'max', 'gcd', 'lcm', '!!', '!?', '!%', 'take', 'drop', 'window',
+           'combinations', '..', '++', '--', '&&', '||', '|.', '-.', 'in', 'not_in', 'join', 'starts_with', 'ends_with', 'contains', 'choose', 'atan2', 'str_radix',
+           'int_radix', 'index', 'locate', 'find', 'zip', 'til', 'to', 'append', 'prepend', '.+', '+.', 'apply', 'of', 'split', 'search', 'count', 'group', 'fold', 'map',
+           'filter', 'sort_on', 'xor', '⊕', 'subtract', 'insert', 'discard', '$']
+    skip_one = {('is_prime', v) for v in pool if '2^6' in v or '922337' in v} | {('factorize', v) for v in pool if '2^6' in v or '922337' in v}
+    big = [v for v in pool if '2^6' in v or '922337' in v]
+    cases = []
+    k = 0
+    for f in one:
+        for v in pool:
+            if (f, v) in skip_one:
+                continue
+            cases.append(('a%d' % k, '%s(%s)' % (f, v), None, dict(fn=f, arg=v)))
+            k += 1
+    for op in two:
+        for a, b in itertools.product(pool, pool):
+            if op in ('til', 'to', 'choose', '..') and (a in big or b in big):
+                continue   # would legitimately build astronomically large values
+            cases.append(('b%d' % k, '(%s) %s (%s)' % (a, op, b), None, dict(op=op, a=a, b=b)))
+            k += 1
+    return '', cases
+
+
 SUITES = {'C03': suite_C03, 'C06': suite_C06, 'C07': suite_C07, 'C08': suite_C08, 'C09': suite_C09, 'C10': suite_C10, 'C11': suite_C11,
-          'C12': suite_C12, 'C14': suite_C14, 'C16': suite_C16}
+          'C12': suite_C12, 'C14': suite_C14, 'C14X': suite_C14X, 'C16': suite_C16}
 # a crash is a C14 violation whichever suite produced it
-C14_SUITES = ['C14', 'C10', 'C11', 'C07', 'C08', 'C06']
+C14_SUITES = ['C14', 'C10', 'C11', 'C07', 'C08', 'C06', 'C14X']
 
 
 def evaluate(binp, prop, limit=3):
